@@ -11,12 +11,13 @@ for mid in ids:
         continue
     meta = json.load(open(os.path.join(d, "meta.json")))
     prop = meta["breaks_property"]
+    tier = meta.get("check_tier", "quick")
     assert subprocess.run(["git", "-C", "/repo", "diff", "--quiet"]).returncode == 0, "/repo dirty"
     if subprocess.run(["git", "-C", "/repo", "apply", os.path.join(d, "patch.diff")]).returncode != 0:
         rows.append((mid, prop, "patch does not apply", "", 0)); continue
     t0 = time.time()
     try:
-        r = subprocess.run(["./check", prop, "quick"], cwd=V, capture_output=True, text=True, timeout=1500)
+        r = subprocess.run(["./check", prop, tier], cwd=V, capture_output=True, text=True, timeout=1500 if tier == "quick" else 5400)
         out, rc = r.stdout, r.returncode
     except subprocess.TimeoutExpired:
         out, rc = "", 124
@@ -28,7 +29,7 @@ for mid in ids:
     jobs = sorted(set(re.findall(r"replays/C\d+/([A-Za-z0-9_.-]+?)__", "\n".join(viol)))) + (["native fallback campaign"] if any("native." in v for v in viol) else [])
     nofail = all(v.endswith("no-failing-input-found") for v in viol) if viol else False
     verdict = {0: "MISSED (check passed)", 1: "detected", 2: "undecided (exit 2)", 124: "timeout"}.get(rc, "rc %d" % rc)
-    meta["detected_by"] = {"check": "./check %s quick" % prop, "exit": rc, "verdict": verdict, "jobs": jobs[:8], "obligations": failed[:6],
+    meta["detected_by"] = {"check": "./check %s %s" % (prop, tier), "exit": rc, "verdict": verdict, "jobs": jobs[:8], "obligations": failed[:6],
                            "native_replay_reproduced": (not nofail) if viol else None, "wall_s": round(time.time() - t0, 1)}
     json.dump(meta, open(os.path.join(d, "meta.json"), "w"), indent=1)
     rows.append((mid, prop, verdict, ", ".join(jobs[:3]), round(time.time() - t0)))
